@@ -221,6 +221,11 @@ func (r *Runner) builtin(ctx context.Context, pos syntax.Pos, name string, args 
 		}
 
 		for _, arg := range args {
+			if arg == "" {
+				r.errf("unset: `': not a valid identifier\n")
+				exit.code = 1
+				continue
+			}
 			if name, sub, ok := cutElemSubscript(arg); vars && ok {
 				r.unsetElem(name, sub)
 			} else if vars && r.lookupVar(arg).IsSet() {
